@@ -3,6 +3,7 @@ package brk
 import (
 	"fmt"
 	"testing"
+	"time"
 
 	"github.com/256dpi/gomqtt/packet"
 
@@ -68,6 +69,11 @@ func expandC16(_ *testing.T, seed uint64, tier string) []*core.Plan {
 		if r.Chance(1, 5) {
 			p.Items = append(p.Items, core.Item{K: "settle"})
 		}
+		if r.Chance(1, 25) {
+			// the connection grows older than the token timeout while everything
+			// is acknowledged; afterwards the window fills again
+			p.Items = append(p.Items, core.Item{K: "idle", A: r.Pick(2500, 5000)})
+		}
 	}
 	return []*core.Plan{p}
 }
@@ -84,6 +90,7 @@ func runC16(t *testing.T, p *core.Plan) *core.Result {
 		cfg.QueueSize = len(p.Items) + 10
 	}
 	cfg.ParPublishes = 64
+	cfg.TokenTimeout = 2 * time.Second
 	win := cfg.Inflight
 	q0 := p.Knob("qos0only", 0) == 1
 	policy := p.Knob("policy", 0)
@@ -148,6 +155,19 @@ func runC16(t *testing.T, p *core.Plan) *core.Result {
 				w.Settle()
 			case "settle":
 				w.Settle()
+			case "idle":
+				// acknowledge everything first: an unacknowledged full window that
+				// lasts longer than the token timeout is a legitimate death
+				for round := 0; round < 400 && (len(sub.Pending) > 0 || round == 0); round++ {
+					pend := sub.Pending
+					sub.Pending = nil
+					for _, x := range pend {
+						sub.Send(x)
+					}
+					w.Settle()
+				}
+				w.Advance(time.Duration(it.A) * time.Millisecond)
+				res.Count("idle_longer_than_token_timeout", 1)
 			}
 		}
 		w.Settle()
